@@ -223,7 +223,11 @@ func (c *checkSchema) ensureShortcutKeysAreValid(node *schema.ObjectNode) error 
 		if err != nil {
 			return lexeme.NewLexEventError(v.Lex, err)
 		}
-		actualType := actualRootType(s, c.rootSchema)
+		actualType, err := actualRootType(s, c.rootSchema)
+		if err != nil {
+			// A type the type of the key refers to is not defined.
+			return lexeme.NewLexEventError(v.Lex, err)
+		}
 
 		if actualType != json.TypeString {
 			return lexeme.NewLexEventError(
@@ -235,17 +239,19 @@ func (c *checkSchema) ensureShortcutKeysAreValid(node *schema.ObjectNode) error 
 	return nil
 }
 
-func actualRootType(s, root *schema.Schema) json.Type {
+func actualRootType(s, root *schema.Schema) (json.Type, errors.Err) {
 	return actualRootTypeOf(s, root, map[string]struct{}{})
 }
 
 // actualRootTypeOf visiting holds the names of the types on the current path: a
 // type list may lead back to a type being resolved (@node = @node | @leaf), that
 // alternative adds nothing to the set of possible types.
-func actualRootTypeOf(s, root *schema.Schema, visiting map[string]struct{}) json.Type {
+//
+// Returns an error when a type on the way is not defined.
+func actualRootTypeOf(s, root *schema.Schema, visiting map[string]struct{}) (json.Type, errors.Err) {
 	t := s.RootNode().Type()
 	if t != json.TypeMixed {
-		return t
+		return t, nil
 	}
 
 	// mixed type for example: @aaa | @bbb
@@ -258,19 +264,22 @@ func actualRootTypeOf(s, root *schema.Schema, visiting map[string]struct{}) json
 			}
 			ss, err := root.Type(tn)
 			if err != nil {
-				return json.TypeMixed
+				return json.TypeMixed, err
 			}
 			visiting[tn] = struct{}{}
-			tt = actualRootTypeOf(ss, root, visiting)
+			tt, err = actualRootTypeOf(ss, root, visiting)
 			delete(visiting, tn)
+			if err != nil {
+				return json.TypeMixed, err
+			}
 			types[tt] = struct{}{}
 		}
 		if len(types) == 1 { // all USER TYPES (example: @aaa | @bbb) have the same type (example: string)
-			return tt
+			return tt, nil
 		}
 	}
 
-	return json.TypeMixed
+	return json.TypeMixed, nil
 }
 
 func (c *checkSchema) collectAllowedJsonTypes(node schema.Node, ss map[string]schema.Type) {
